@@ -694,7 +694,7 @@ def judge_ell_float(ck, c, im, mo=None):
 
 # ======================================================================= dispatch
 FLAGS = ["graph", "sphere", "ellipsoid", "lineage", "tracklet"]
-TRACK_OPTS = [None, [], ["tracklet"], ["lineage"], ["tracklet", "lineage"]]
+TRACK_OPTS = [None, [], ["tracklet"], ["lineage"], ["tracklet", "lineage"], ["lineage", "tracklet"]]   # both KEY ORDERS
 VALIDATOR_OF_FLAG = {"graph": CALLS[3], "sphere": CALLS[4], "ellipsoid": CALLS[5], "tracklet": CALLS[6], "lineage": CALLS[7]}
 
 
@@ -773,14 +773,15 @@ def impl_dispatch(c):
     dec = c["decl"]
     active, _ = dispatch_expected(c)
     ids, edges, arrs = dispatch_data(c.get("shape", "path"), set(c["bad"]))
-    props = {k: {"values": v, "missing": None} for k, v in arrs.items()}
+    rev = dec["track"] is not None and dec["track"][:1] == ["lineage"]     # insertion order of every dict follows
+    props = {k: {"values": v, "missing": None} for k, v in (reversed(list(arrs.items())) if rev else arrs.items())}
     if c["omit"]:   # data of validators that must not be evaluated is absent altogether
         keep = {"sphere": "r", "ellipsoid": "cov", "tracklet": "trk", "lineage": "lin"}
         props = {keep[f]: props[keep[f]] for f in active if f in keep}
     track = None if dec["track"] is None else {k: {"tracklet": "trk", "lineage": "lin"}[k] for k in dec["track"]}
     md = _meta(axes=["time", "space", "space"], sphere="r" if dec["sphere"] else None,
                ellipsoid="cov" if dec["ellipsoid"] else None, track=track,
-               props=[("r", "float64"), ("cov", "float64"), ("trk", "int64"), ("lin", "int64")])
+               props=[("r", "float64"), ("cov", "float64"), ("trk", "int64"), ("lin", "int64")][::-1 if rev else 1])
 
     def geff():
         return {"metadata": md, "node_ids": ids.copy(), "edge_ids": edges.copy(),
@@ -872,6 +873,7 @@ def judge_dispatch(ck, c, im, mo):
 
 # ======================================================================= dispatch THROUGH THE READER
 STORE_DECLS = [{"sphere": True, "ellipsoid": True, "track": ["tracklet", "lineage"]},
+               {"sphere": True, "ellipsoid": True, "track": ["lineage", "tracklet"]},
                {"sphere": True, "ellipsoid": False, "track": ["tracklet"]},
                {"sphere": False, "ellipsoid": True, "track": ["lineage"]},
                {"sphere": False, "ellipsoid": False, "track": None}]
@@ -886,9 +888,12 @@ def _dispatch_geff(shape, bad, decl, variant="plain", directed=True, d=2):
     for a in axn:
         arrs[a] = np.zeros(n)
     track = None if decl["track"] is None else {k: {"tracklet": "trk", "lineage": "lin"}[k] for k in decl["track"]}
+    rev = decl["track"] is not None and decl["track"][:1] == ["lineage"]   # insertion order of every dict follows
+    plist = [("r", "float64"), ("cov", "float64"), ("trk", "int64"), ("lin", "int64")] + [(a, "float64") for a in axn]
     md = _meta(directed=directed, axes=["time"] + ["space"] * d, sphere="r" if decl["sphere"] else None,
-               ellipsoid="cov" if decl["ellipsoid"] else None, track=track,
-               props=[("r", "float64"), ("cov", "float64"), ("trk", "int64"), ("lin", "int64")] + [(a, "float64") for a in axn])
+               ellipsoid="cov" if decl["ellipsoid"] else None, track=track, props=plist[::-1] if rev else plist)
+    if rev:
+        arrs = dict(reversed(list(arrs.items())))
     return {"metadata": md, "node_ids": variant_array(ids, variant), "edge_ids": variant_array(edges, variant),
             "node_props": {k: {"values": variant_array(v, variant), "missing": None} for k, v in arrs.items()},
             "edge_props": {}}
@@ -935,7 +940,7 @@ def dispatch_store_cases(full):
         else:
             bad_sets = [[]] + [[f] for f in can_be_bad] + ([list(can_be_bad)] if len(can_be_bad) > 1 else [])
         for bad in bad_sets:
-            for decl in (STORE_DECLS if full else STORE_DECLS[:2]):
+            for decl in (STORE_DECLS if full else STORE_DECLS[:3]):
                 yield {"kind": "dispatch_store", "shape": shape, "decl": decl, "bad": ALWAYS_BAD.get(shape, []) + bad}
 
 
@@ -972,7 +977,8 @@ ORDER = ["graph", "sphere", "ellipsoid", "tracklet", "lineage"]
 
 def reader_decl_of(c):
     dset = c["declared"]
-    tr = [k for k in ("tracklet", "lineage") if k in dset]
+    keys = ("lineage", "tracklet") if c.get("track_order") == "lineage,tracklet" else ("tracklet", "lineage")
+    tr = [k for k in keys if k in dset]
     return {"sphere": "sphere" in dset, "ellipsoid": "ellipsoid" in dset, "track": tr or None}
 
 
@@ -1037,6 +1043,9 @@ def reader_decl_cases(full):
         for dset in subsets:
             for bad in [[]] + [[v] for v in dset] + ([list(dset)] if full and len(dset) > 1 else []):
                 yield {"kind": "reader_decl", "declared": dset, "bad": bad, "d": d, "zarr_format": fmt}
+                if "tracklet" in dset and "lineage" in dset:     # the other KEY ORDER of track_node_props
+                    yield {"kind": "reader_decl", "declared": dset, "bad": bad, "d": d, "zarr_format": fmt,
+                           "track_order": "lineage,tracklet"}
     if not full:   # the other format and 1 / 3 space axes: every declaration subset holding an ellipsoid or a sphere
         for fmt, d in [(3, 1), (3, 3), (2, 1), (2, 3), (3, 2)]:
             for dset in subsets:
@@ -1405,7 +1414,7 @@ def run(ck: common.Check):
                "undirected metadata + seeded random mostly-valid graphs with single defects and values at the dtype limits; "
                "sphere: special values (+-0, +-inf, NaN, denormals) x mask + random arrays of rank 0-3; ellipsoid_shape: axes "
                "lists with 0-4 space axes x shapes of rank 0-5 with extents 0-4; ellipsoid_float (differential only): A=B^T B+I "
-               "vs asymmetry>=0.1 or an eigenvalue<=-0.1, junk under the mask; dispatch: all 2^5 configs x 20 declarations x "
+               "vs asymmetry>=0.1 or an eigenvalue<=-0.1, junk under the mask; dispatch: all 2^5 configs x 24 declarations (track_node_props None / {} / each key alone / both keys in BOTH insertion orders, the property dicts following the same order) x "
                "invalid-data sets x data present/absent; lineage_masked: all digraphs on <=3 nodes x every missing mask x "
                "labellings of the rest + random forests with lone unlabelled nodes; non-trivial = non-empty input / some flag on")
     cases = list(corpus())
